@@ -24,7 +24,7 @@ class Copy(Command):
     output = params.DataParameter()
 
     def execute(self, **kwargs):
-        return numpy.copy(kwargs["InFieldName"].result)
+        return kwargs["InFieldName"].result.copy()
 
 
 class AMinusB(SameArrayShapeMixin, Command):
